@@ -206,6 +206,51 @@ def w_converters(cfg, tier='quick'):
     return col.result()
 
 
+def w_converters_large(cfg, tier='quick'):
+    """cfg = 'converters-large n=<n>': the integer / string conversions on LONG vectors (machine-word
+    boundaries): symbolic bits at the first, last and middle positions, zero elsewhere."""
+    _install()
+    import panqec.bpauli as bp
+    n = int(cfg.split('=')[1])
+    col = hz.Collector(cfg)
+    col.encoded(bp.bvector_to_int, bp.int_to_bvector, bp.bvectors_to_ints, bp.ints_to_bvectors,
+                bp.bvector_to_pauli_string, bp.pauli_string_to_bvector, bp.bsf_wt)
+    pos = sorted({0, 1, n - 1, n, 2 * n - 2, 2 * n - 1})
+    V = {i: z3.Bool(f'v_{i}') for i in pos}
+    eng = Engine(name=cfg)
+    with eng:
+        def fn():
+            v = as_sa([Bit(V[i]) if i in V else 0 for i in range(2 * n)])
+            iv = bp.bvector_to_int(v)                    # realises the symbolic cells
+            conc = [int(c) for c in v]
+            back = bp.int_to_bvector(iv, n)
+            back2 = bp.ints_to_bvectors(bp.bvectors_to_ints([np.array(conc, dtype=np.uint8)]), n)[0]
+            s_ = bp.bvector_to_pauli_string(np.array(conc, dtype=np.uint8))
+            back3 = bp.pauli_string_to_bvector(s_)
+            return iv, conc, [int(x) for x in back], [int(x) for x in back2], [int(x) for x in back3], \
+                int(bp.bsf_wt(np.array(conc, dtype=np.uint8)))
+        paths = eng.explore(fn)
+    col.absorb(eng)
+    bad = []
+    for p in paths:
+        if p.exc is not None:
+            r, m, dt = col.solve(p.pc)
+            col.record('C03/converters-large/no-exception', r, dt, True, None, f'{type(p.exc).__name__}: {p.exc}')
+            continue
+        iv, conc, b1, b2, b3, wt = p.value
+        want_int = int(''.join(map(str, conc)), 2)
+        want_wt = sum(1 for i in range(n) if conc[i] or conc[n + i])
+        ok = int(iv) == want_int and b1 == conc and b2 == conc and b3 == conc and wt == want_wt
+        bad.append(z3_and(p.pc + [z3.BoolVal(not ok)]))
+
+    def wit(m):
+        return dict(n=n, ones=[i for i in pos if z3.is_true(m.eval(V[i], model_completion=True))], large=True)
+    col.prove('C03/converters-large/int-and-string-roundtrips', [], z3_or(bad), wit,
+              f'n={n}: {len(paths)} realised vectors with bits at positions {pos}; integer value, int / ints / string '
+              'round trips and weight')
+    return col.result()
+
+
 def w_brank(cfg, tier='quick'):
     """cfg = 'brank r=<rows> c=<cols>': rank of a symbolic matrix equals the GF(2) rank."""
     _install()
@@ -316,8 +361,8 @@ def w_linear(cfg, tier='quick'):
 
 def worker(cfg, tier='quick'):
     kind = cfg.split()[0]
-    return {'bs_prod': w_bs_prod, 'converters': w_converters, 'brank': w_brank, 'dtype': w_dtype,
-            'linear': w_linear}[kind](cfg, tier)
+    return {'bs_prod': w_bs_prod, 'converters': w_converters, 'converters-large': w_converters_large, 'brank': w_brank,
+            'dtype': w_dtype, 'linear': w_linear}[kind](cfg, tier)
 
 
 def replay(path):
@@ -359,6 +404,13 @@ def replay(path):
                 bad = (f(s, w['b']).reshape(-1) != (got.reshape(-1) + f(w['a2'], w['b']).reshape(-1)) % 2).any()
             elif 'no-exception' in oid:
                 bad = False
+        elif cfg.startswith('converters-large'):
+            n = w['n']
+            v = np.zeros(2 * n, dtype=np.uint8)
+            v[w['ones']] = 1
+            iv = bp.bvector_to_int(v)
+            print('n', n, 'ones at', w['ones'], 'int', iv, 'expected', int(''.join(map(str, v)), 2))
+            bad = int(iv) != int(''.join(map(str, v)), 2) or list(map(int, bp.int_to_bvector(iv, n))) != list(map(int, v))
         elif cfg.startswith('converters'):
             n = w['n']
             v = np.array(w['v'], dtype=np.uint8)
@@ -408,6 +460,7 @@ def configs(tier):
                 out.append(f'bs_prod n={n} a={ra}:{ka} b={rb}:{kb}')
     for n in ([1, 2, 3] if tier == 'quick' else [1, 2, 3, 4, 5]):
         out.append(f'converters n={n}')
+    out += [f'converters-large n={n}' for n in ([16, 32, 33, 64, 70] if tier == 'quick' else [16, 31, 32, 33, 40, 63, 64, 65, 100, 300])]
     out += ['brank r=2 c=3', 'brank r=3 c=2'] + ([] if tier == 'quick' else ['brank r=3 c=3', 'brank r=2 c=5'])
     out.append('dtype seed=0')
     lin = ['Toric2DCode(2,3)', 'Planar2DCode(3,2)/XZZX/x', 'RotatedPlanar2DCode(3,3)/XY',
